@@ -117,7 +117,7 @@ func (m *Model) PossiblyAlive(a *mAlloc, t1, t2 int64) bool {
 
 // DefinitelyAlive: the allocation exists at every instant of [t1,t2].
 func (m *Model) DefinitelyAlive(a *mAlloc, t1, t2 int64) bool {
-	return !a.Uncertain && a.Created.Hi <= t1 && a.endLo() > t2
+	return !a.Uncertain && a.Created.Hi < t1 && a.endLo() > t2
 }
 
 // Current returns the allocations of a 5-tuple that may be alive during [t1,t2].
@@ -156,7 +156,7 @@ func (m *Model) periodPossibly(a *mAlloc, p *period, t1, t2 int64) bool {
 }
 
 func (m *Model) periodDefinitely(a *mAlloc, p *period, t1, t2 int64) bool {
-	return p.From.Hi <= t1 && p.Until.Lo > t2 && m.DefinitelyAlive(a, t1, t2)
+	return p.From.Hi < t1 && p.Until.Lo > t2 && m.DefinitelyAlive(a, t1, t2)
 }
 
 func maxI(a, b int64) int64 {
